@@ -29,7 +29,7 @@ def pairs(d):
                     store={OTHER: {"definitions": {"x": other_doc}}, NESTED + "item.json": nested_doc}, remote={},
                     instances=[inst], refs=[], fmt=fmt)
     instA = {"a": "s", "b": {"c": 1}, "r": None, "p": "bbb", "z": 1.5}
-    instB = {"a": 1, "b": {"c": "t"}, "r": 2, "p": "aaa", "z": "q"}
+    instB = {"a": 1, "b": {"c": "t"}, "r": 2, "p": "bbb", "z": "q"}
     A = member({"type": "integer"}, {"type": "string"}, {"type": "string"}, instA, fmt="even")
     B = member({"type": "string"}, {"type": "integer"}, {"type": "integer"}, instB, fmt="odd")
     smallA = {"a": "s", "b": {"c": 1}, "z": 1.5}
